@@ -327,7 +327,12 @@ fn sweeps(g: &mut SplitMix64, nsamplers: usize) {
             let table = smp.table();
             rng.take_log();
             if let Err(p) = catch(|| smp.sweep(beta)) {
-                emit(true, &format!("sweep-panic {}", kind), "PANIC", Some(Err(format!("diagonal step panicked: {}", p))));
+                emit(
+                    true,
+                    &format!("sweep-panic {} {} {} {} {} {}", kind, show_table_ham(&cfg.bonds), rat(beta), cfg.cutoff, bits(&cfg.state), show_cfg_slots(&cfg.slots)),
+                    "PANIC",
+                    Some(Err(format!("diagonal step panicked{}: {}", if restored { " on a string installed with new_from_ops" } else { "" }, p))),
+                );
                 break;
             }
             let log = rng.take_log();
@@ -363,6 +368,102 @@ fn sweeps(g: &mut SplitMix64, nsamplers: usize) {
     }
 }
 
+// ------------------------------------------------------------------------------------------------
+// mode energy
+// ------------------------------------------------------------------------------------------------
+
+/// The energy a heat-bath run reports: `timesteps` / `timesteps_sample` / `timesteps_measure` /
+/// `timesteps_sample_iter` with sampling_freq None/1/2/3/5 must return −(Σ n over the SAMPLED steps / #sampled)/β + offset,
+/// where the n are those of a manual `timestep` / `get_n` loop on a clone driven by the same RNG words.
+fn energy(g: &mut SplitMix64, ncases: usize) {
+    let mut done = 0;
+    let mut tries = 0;
+    while done < ncases && tries < ncases * 10 {
+        tries += 1;
+        let rng = SharedRng::new(g.next());
+        let (mut smp, kind, mut partner) = make_sampler(g, &rng);
+        let heat = g.chance(5, 6);
+        enable_heatbath(&mut smp, heat);
+        let beta = *g.pick(&[0.25, 0.5, 1.0, 2.0]);
+        if !swap_in_partner(g, &mut smp, &mut partner, heat, beta) {
+            continue;
+        }
+        if catch(|| smp.timestep(beta)).is_err() {
+            continue;
+        }
+        let freq = *g.pick(&[None, Some(1usize), Some(2), Some(3), Some(5)]);
+        let f = freq.unwrap_or(1);
+        let t = g.range(f as i64, 12) as usize; // at least one sampled step
+        let api = g.below(4);
+        let seed = g.next();
+        // --- manual loop on a clone
+        let mut manual = smp.clone();
+        rng.script(vec![], seed);
+        let mut ns = vec![];
+        let mut ok = true;
+        for _ in 0..t {
+            ok &= catch(|| manual.timestep(beta)).is_ok();
+            ns.push(manual.get_n());
+        }
+        if !ok {
+            continue;
+        }
+        let manual_log = rng.take_log();
+        let sampled: Vec<usize> = (0..t).filter(|i| (i + 1) % f == 0).map(|i| ns[i]).collect();
+        let total: usize = sampled.iter().sum();
+        let want = -((total as f64 / sampled.len() as f64) / beta) + smp.offset();
+        // --- the library's measuring loop, same RNG words
+        rng.script(vec![], seed);
+        let api_name;
+        let got = catch(|| match (&mut smp, api) {
+            (Smp::Ising(q, _), 0) | (Smp::Ising(q, _), 1) if freq.is_none() => q.timesteps(t, beta),
+            (Smp::Gen(q, _), 0) | (Smp::Gen(q, _), 1) if freq.is_none() => q.timesteps(t, beta),
+            (Smp::Ising(q, _), 0) => q.timesteps_sample(t, beta, freq).1,
+            (Smp::Gen(q, _), 0) => q.timesteps_sample(t, beta, freq).1,
+            (Smp::Ising(q, _), 1) => q.timesteps_measure(t, beta, 0usize, |a, _| a + 1, freq).1,
+            (Smp::Gen(q, _), 1) => q.timesteps_measure(t, beta, 0usize, |a, _| a + 1, freq).1,
+            (Smp::Ising(q, _), 2) => q.timesteps_sample_iter(t, beta, freq, |_| ()),
+            (Smp::Gen(q, _), 2) => q.timesteps_sample_iter(t, beta, freq, |_| ()),
+            (Smp::Ising(q, _), _) => q.timesteps_measure_with_self(t, beta, (), |_, _| (), freq).1,
+            (Smp::Gen(q, _), _) => q.timesteps_measure_with_self(t, beta, (), |_, _| (), freq).1,
+        });
+        api_name = match (api, freq.is_none()) {
+            (0, true) | (1, true) => "timesteps",
+            (0, false) => "timesteps_sample",
+            (1, false) => "timesteps_measure",
+            (2, _) => "timesteps_sample_iter",
+            _ => "timesteps_measure_with_self",
+        };
+        let lib_log = rng.take_log();
+        let input = format!("energy {} {} {} {} {}", rat(beta), rat(smp.offset()), f, t, list(&ns));
+        let mut oracle = Ok(());
+        let output = match got {
+            Err(p) => {
+                oracle = Err(format!("{} panicked: {}", api_name, p));
+                "PANIC".to_string()
+            }
+            Ok(e) => {
+                if lib_log != manual_log {
+                    oracle = Err(format!("{} drew other RNG words than {} manual time steps", api_name, t));
+                } else if smp.get_n() != *ns.last().unwrap() || smp.slots() != manual.slots() {
+                    oracle = Err(format!("{} did not end in the state of {} manual time steps", api_name, t));
+                } else if !((e - want).abs() <= 1e-12 * want.abs().max(1.0)) {
+                    oracle = Err(format!(
+                        "{}(t={}, beta={}, sampling_freq={:?}) returned {} but -(sum n over sampled steps {:?} / {})/beta + offset {} = {}",
+                        api_name, t, beta, freq, e, sampled, sampled.len(), smp.offset(), want
+                    ));
+                }
+                approx(e)
+            }
+        };
+        stat(&format!("energy_{}_{}", api_name, if heat { "heatbath" } else { "metropolis" }), 1);
+        stat(&format!("energy_freq_{}", freq.map(|k| k.to_string()).unwrap_or("none".into())), 1);
+        stat(&format!("energy_{}", kind), 1);
+        emit(true, &input, &output, Some(oracle));
+        done += 1;
+    }
+}
+
 fn main() {
     quiet_panics();
     let a = args();
@@ -371,6 +472,7 @@ fn main() {
         "tables" => tables(&mut g, if a.thorough { 15000 } else { 1500 }),
         "pairs" => pair_tables(&mut g, if a.thorough { 8000 } else { 800 }),
         "sweeps" => sweeps(&mut g, if a.thorough { 8000 } else { 1000 }),
+        "energy" => energy(&mut g, if a.thorough { 6000 } else { 600 }),
         "prob" => {
             let want = if a.thorough { 3000 } else { 300 };
             let mut done = 0;
